@@ -96,10 +96,17 @@ def make_element(e):
             kw['no_load_electric_current'] = mkq(e['i0'])
         if e.get('imax') is not None:
             kw['maximum_electric_current'] = mkq(e['imax'])          # a data sheet may give only one of the two currents
+        if e.get('explicit_none'):
+            kw.setdefault('no_load_electric_current', None)
+            kw.setdefault('maximum_electric_current', None)
         return mo.DCMotor(name=e['name'], inertia_moment=mkq(e['J']), no_load_speed=mkq(e['w0']), maximum_torque=mkq(e['Tmax']), **kw)
     if t == 'fly':
         return mo.Flywheel(name=e['name'], inertia_moment=mkq(e['J']))
     kw = {}
+    if e.get('explicit_none'):
+        # optional data given explicitly as None (its documented default) instead of being omitted
+        kw = {'spur': dict(module=None, face_width=None, elastic_modulus=None), 'helical': dict(module=None, face_width=None, elastic_modulus=None),
+              'wormwheel': dict(module=None, face_width=None), 'wormgear': {}}[t]
     if 'module' in e:
         kw['module'] = mkq(e['module'])
     if 'face_width' in e:
@@ -116,7 +123,7 @@ def make_element(e):
         return mo.WormWheel(name=e['name'], n_teeth=e['z'], inertia_moment=mkq(e['J']), helix_angle=mkq(e['helix']),
                             pressure_angle=mkq(e['pa']), **kw)
     if t == 'wormgear':
-        kw = {}
+        kw = {'reference_diameter': None} if e.get('explicit_none') else {}
         if 'd' in e:
             kw['reference_diameter'] = mkq(e['d'])
         return mo.WormGear(name=e['name'], n_starts=e['n_starts'], inertia_moment=mkq(e['J']), helix_angle=mkq(e['helix']),
